@@ -69,7 +69,8 @@ Record config := mkCfg {
   c_hash : nat;                (* number of elements of the HashMap resource *)
   c_incmap : bool;             (* an IncMap resource is configured *)
   c_nested : nat;              (* number of Nested resources *)
-  c_cdur : inst -> nat         (* how long the Close of each thing takes *)
+  c_cdur : inst -> nat;        (* how long the Close of each thing takes *)
+  c_eerr : inst -> bool        (* does the Close of a map element / nested context return an error *)
 }.
 
 Record result := mkRes { r_end : option endway; r_close_err : bool }.
@@ -154,7 +155,7 @@ Definition closables (cfg : config) (realised : list nat) : list (inst * nat) :=
   map (fun x => (x, c_cdur cfg x)) (instances cfg realised).
 
 Definition leaf_err (cfg : config) (x : inst) : bool :=
-  match x with ILeaf i => nth i (c_leaves cfg) false | _ => false end.
+  match x with ILeaf i => nth i (c_leaves cfg) false | _ => c_eerr cfg x end.
 Definition close_err (cfg : config) (cl : list inst) : bool := existsb (leaf_err cfg) cl.
 
 (* a caller at program point p executes its next statement *)
